@@ -20,7 +20,7 @@ import (
 // C15 (runnable): a configuration that Load accepts can be run.
 func TestVerifC15Runnable(t *testing.T) {
 	L := ev.Begin("C15", "c15-runnable", "exploration",
-		"every value of glob.cache.size in {-1,0,1,2,1000,MaxInt64} x glob.matching.disabled x proxy.strategy {rr, rnd, other letter case, unknown} x proxy.matcher {prefix, glob, iprefix, other letter case, unknown}: if config.Load accepts it, main.newHTTPProxy is built from it and serves 4 lookups over a table with 3 glob hosts (more patterns than a cache of size 1 or 2 holds) without panicking; plus metrics.prometheus.buckets over 8 lists (unsorted, duplicate, negative, non-finite) x target {prometheus, flat}: an accepted one is initialised as main does and observes once. non-trivial = accepted configuration")
+		"every value of glob.cache.size in {-1,0,1,2,1000,MaxInt64} x glob.matching.disabled x proxy.strategy {rr, rnd, other letter case, unknown} x proxy.matcher {prefix, glob, iprefix, other letter case, unknown}: if config.Load accepts it, main.newHTTPProxy is built from it and serves 4 lookups over a table with 3 glob hosts (more patterns than a cache of size 1 or 2 holds) without panicking; plus metrics.prometheus.buckets over 8 lists (unsorted, duplicate, negative, non-finite) x target {prometheus, flat}: an accepted one is initialised as main does and observes once; plus metrics.interval {0s, -1s, 1s} x push target {statsd_raw, dogstatsd, graphite} initialised as main does. non-trivial = accepted configuration")
 	up := httptest.NewServer(http.HandlerFunc(func(w http.ResponseWriter, r *http.Request) { w.Write([]byte("ok")) }))
 	defer up.Close()
 	up2 := httptest.NewServer(http.HandlerFunc(func(w http.ResponseWriter, r *http.Request) { w.Write([]byte("ok")) }))
@@ -113,6 +113,39 @@ func TestVerifC15Runnable(t *testing.T) {
 			if pan {
 				d["panic"], d["stack"] = msg, stack
 				L.Violation("accepted-configuration-panics-at-request-time/metrics.prometheus.buckets", d)
+			}
+		}
+	}
+	// metrics.interval drives a ticker in the push providers
+	for _, iv := range []string{"0s", "-1s", "1s"} {
+		for _, target := range []string{"statsd_raw", "dogstatsd", "graphite"} {
+			args := []string{"fabio", "-metrics.target=" + target, "-metrics.interval=" + iv, "-metrics.statsd.addr=127.0.0.1:18125", "-metrics.dogstatsd.addr=127.0.0.1:18125", "-metrics.graphite.addr=127.0.0.1:12003"}
+			L.Case()
+			var cfg *config.Config
+			var lerr error
+			msg, _, pan := ev.Guard(func() { cfg, lerr = config.Load(args, nil) })
+			d := map[string]interface{}{"args": args}
+			if pan {
+				d["panic"] = msg
+				L.Violation("load-panics", d)
+				continue
+			}
+			if lerr != nil {
+				L.Outcome("rejected")
+				continue
+			}
+			L.NontrivialKey(fmt.Sprint(args))
+			L.Outcome("accepted")
+			msg, stack, pan := ev.Guard(func() {
+				p, err := metrics.Initialize(&cfg.Metrics)
+				if err != nil {
+					return // refused at start-up with an error: that is not running
+				}
+				p.NewCounter("verif.c15.interval").Add(1)
+			})
+			if pan {
+				d["panic"], d["stack"] = msg, stack
+				L.Violation("accepted-configuration-panics-at-start-up/metrics.interval", d)
 			}
 		}
 	}
